@@ -74,14 +74,14 @@ def _rosquist(sp, t, x, y, z, P):
 
 
 def _eds(sp, t, x, y, z, P):
-    a2 = (t / P["t_today"]) ** R(4, 3)
+    a2 = (P.get("a_today", R(1)) * (t / P["t_today"]) ** R(2, 3)) ** 2
     return 1, [0, 0, 0], {k: (a2 if k[0] == k[1] else 0) for k in SYM}
 
 
 def _lcdm(sp, t, x, y, z, P):
     Om, Ol = P["Om"], 1 - P["Om"]
     t_eds = 2 / (3 * P["H0"])
-    a = (Om / Ol) ** R(1, 3) * sp.sinh(sp.sqrt(Ol) * t / t_eds) ** R(2, 3)
+    a = P.get("a_today", R(1)) * (Om / Ol) ** R(1, 3) * sp.sinh(sp.sqrt(Ol) * t / t_eds) ** R(2, 3)
     return 1, [0, 0, 0], {k: (a ** 2 if k[0] == k[1] else 0) for k in SYM}
 
 
@@ -112,11 +112,13 @@ def _patch_nondiag(mod, P):
 
 
 def _patch_eds(mod, P):
+    mod.a_today = float(P.get("a_today", 1))
     mod.t_today = float(P["t_today"])
     mod.Hprop_today = 2.0 / (3.0 * mod.t_today)
 
 
 def _patch_lcdm(mod, P):
+    mod.a_today = float(P.get("a_today", 1))
     mod.Omega_m_today = float(P["Om"])
     mod.Omega_l_today = 1 - mod.Omega_m_today
     mod.Hprop_today = float(P["H0"])
@@ -148,8 +150,9 @@ def _param_sets(tier):
                               [(R(1), R(0), R(0), R(0)), (R(1), ln(2), R(1), R(1, 2))]),
                              ({"s": R(1, 2), "q": R(0), "k": R(3, 2), "m": R(2, 5)}, [(R(4), ln(R(2, 3)), R(0), R(-1)), (R(9, 4), R(0), R(1), R(0))]),
                              ({"s": R(3, 2), "q": R(1, 2), "k": R(1, 2), "m": R(3)}, [(R(2), ln(2), R(0), R(0)), (R(1, 3), ln(R(3, 2)), R(0), R(1))])],
-        "EdS": [({"t_today": R(1)}, [(R(1), R(0), R(0), R(0)), (R(8), R(1), R(2), R(3)), (R(27, 8), R(0), R(1), R(0))])],
-        "LCDM": [({"Om": R(9, 25), "H0": R(1, 2)}, ["today"])],
+        "EdS": [({"t_today": R(1)}, [(R(1), R(0), R(0), R(0)), (R(8), R(1), R(2), R(3))]),
+                ({"t_today": R(1), "a_today": R(3)}, [(R(27, 8), R(0), R(1), R(0))])],       # scale factor normalised to 3 today
+        "LCDM": [({"Om": R(9, 25), "H0": R(1, 2)}, ["today"]), ({"Om": R(9, 25), "H0": R(1, 2), "a_today": R(1, 4)}, ["today"])],
     }
     if not quick:
         sets["Schwarzschild_isotropic"] += [({"M": R(1)}, [(0, R(1), R(4), R(8)), (R(2), R(4, 3), R(4, 3), R(7, 3)), (0, R(2, 5), R(6, 5), R(9, 5)), (0, R(-6), R(6), R(7))]),
